@@ -153,7 +153,8 @@ class MDec:
         return hash((c, e))
     def __round__(self, places=None):
         if self.inf: raise InvalidOperation("round(inf)")
-        if places is None: raise ModelUnsupported("round to int")
+        if places is None:  # round(Decimal) -> int, half-even, whatever the context
+            return _rdiv(self.c, -self.e) if self.e < 0 else self.c * 10 ** self.e
         d = -places - self.e
         c = _rdiv(self.c, d) if d >= 0 else self.c * 10 ** (-d)
         lim = 10 ** getcontext().prec
